@@ -1,7 +1,8 @@
 """C20 - runs are deterministic and VM instances are isolated from each other.
 
 spec/Isolation.tla: instances with private stores + the process-wide statics as explicit state, the
-named deviations ToFixedSetsStatic / CounterIsStatic / TypeIdByFirstUse / AddressInOutput;
+named deviations ToFixedSetsStatic / CounterIsStatic / TypeIdByFirstUse / AddressInOutput (the snapshot) and
+ObjectHashIsAddress / ExtBufferIsStatic (regressions the object-keyed-hashmap and callExtension probes must notice);
 spec/Isolation_MC.tla: product of three runs (P with Q in one process, P alone, P alone again), every
 interleaving of P's and Q's statements: design check (ideal satisfies NonInterferenceAfter /
 NonInterferenceBeside / Deterministic, every deviation is refuted) and case generator;
